@@ -180,6 +180,16 @@ MUTANTS = [
      "        if mode:\n            for monitor in self.monitor_pool_.monitors:\n                monitor.register()", "        if mode:\n            for monitor in self.monitor_pool_.monitors:\n                if not monitor.registered:\n                    monitor.register()\n                    break"),
     ("monitor_register_again_double", "C15", 1500, "inferno/observe/monitors.py",
      "        elif not self.registered:\n            # try to get the referenced module", "        else:\n            # try to get the referenced module"),
+    ("cfg_batchsz_setter_skips_one", "C14", 2000, "inferno/neural/mixins.py",
+     "            for cstr in self.__constrained:\n                getattr(self, cstr).reconstrain(0, value)", "            for cstr in sorted(self.__constrained)[1:] or sorted(self.__constrained):\n                getattr(self, cstr).reconstrain(0, value)"),
+    ("cfg_dt_setter_not_propagated", "C14", 2000, "inferno/neural/mixins.py",
+     "            for cstr in self.__constrained:\n                getattr(self, cstr).dt = value\n            self.__step_time = value", "            self.__step_time = value"),
+    ("cfg_reducer_dt_keeps_decay", "C14", 2000, "inferno/observe/reducers/trace.py",
+     "        FoldReducer.dt.fset(self, value)\n        self.decay = exp(-self.dt / self.time_constant)", "        FoldReducer.dt.fset(self, value)", 0),
+    ("cfg_synapse_delay_setter_old_formula", "C14", 2000, "inferno/neural/mixins.py",
+     "                getattr(self, cstr).duration = value\n            self.__delay = value", "                getattr(self, cstr).duration = value + self.__step_time\n            self.__delay = value"),
+    ("cfg_reducer_inplace_setter_inverted_when_true", "C14", 2000, "inferno/observe/reducers/base.py",
+     "        self.__inplace = bool(value)\n\n\nclass FoldReducer", "        self.__inplace = bool(value) and self.__duration > 0\n\n\nclass FoldReducer"),
     ("resize_keeps_head", "C13", 3000, INFRA,
      "            slices[dim] = slice(tensor.shape[dim] - size, None)\n            return tensor[*slices]", "            slices[dim] = slice(None, size)\n            return tensor[*slices]"),
     ("resize_no_align", "C13", 3000, INFRA,
